@@ -62,16 +62,17 @@ Qed.
 Lemma filter_true {A} (l : list A) : filter (fun _ => true) l = l.
 Proof. induction l; cbn; congruence. Qed.
 
-Lemma prefix_all m p : forward_view m (Some p) EAll = spec_forward_view m (Some p) EAll.
+(* with a prefix too: every member set, every prefix, every show/hide list *)
+Lemma prefix_filter m p e : forward_view m (Some p) e = spec_forward_view m (Some p) e.
 Proof.
-  unfold forward_view, spec_forward_view, rename. cbn [allow_fun allow_var visible_fun visible_var].
-  rewrite !filter_true. reflexivity.
+  unfold forward_view, spec_forward_view, rename. f_equal.
+  - apply filter_ext. intros; apply allow_var_visible.
+  - apply filter_ext. intros; apply allow_fun_visible.
+  - apply filter_ext. intros; apply allow_fun_visible.
 Qed.
 
-Lemma refuted_prefix_filter :
-  known_K3 (Some "p-") (EShow ["p-f"] ["p-v"]) = true /\
-  forward_view lib (Some "p-") (EShow ["p-f"] ["p-v"]) <> spec_forward_view lib (Some "p-") (EShow ["p-f"] ["p-v"]).
-Proof. split; [reflexivity | vm_compute; discriminate]. Qed.
+Lemma forward_ok m pfx e : forward_view m pfx e = spec_forward_view m pfx e.
+Proof. destruct pfx; [apply prefix_filter | apply show_hide]. Qed.
 
 (* ------------------------------------------------------------------ with (...) *)
 Definition keq (a b : string) : bool := String.eqb (norm a) (norm b).
